@@ -77,7 +77,7 @@ def handle : List String → String
     let gaps := (ts.zip (ts.drop 1)).map (fun (a, b) => b - a)
     let immediate := gaps.filter (· < 8000)
     let waited := gaps.filter (· ≥ 8000)
-    let allowedImmediate := if kind = "retryable" then 0 else 2
+    let allowedImmediate := if kind = "retryable" || kind = "partial-retryable" then 0 else 2
     let _ := api
     if immediate.length > allowedImmediate then
       s!"SPEC key=hot-retry-{api}-{kind} immediate={immediate.length} gaps_us={gaps}"
